@@ -5,6 +5,7 @@
 -/
 import SV.Misc.TimeCacheProofs
 import SV.Misc.TimeCacheMore
+import SV.GenProofs
 namespace SV.Props.C18
 open SV SV.TimeCache
 
@@ -81,5 +82,9 @@ theorem verdict_sound_for_every_history (ops : List BAOp) (d : Nat) (hok : ∀ b
     (has (ops.foldl (I.astep d) ⟨[], []⟩).must k = true → ((ops.map BAOp.exact).foldl TimeCache.astep (Core.new d)).has k = true) ∧
     (((ops.map BAOp.exact).foldl TimeCache.astep (Core.new d)).has k = true → has (ops.foldl (I.astep d) ⟨[], []⟩).may k = true) :=
   api_interval_run_verdict ops d hok k
+
+/-! ### tie by translation: the source's own leaf logic (regenerated into SV/Generated/Funcs.lean on every run) IS the model's -/
+theorem source_expiry_test_is_the_models (now : Nat) (e : Entry) :
+    decide (now - e.timestamp > e.span) = Gen.sweepExpired ((now - e.timestamp : Nat) : Int) e.span := GenProofs.sweepExpired_eq now e
 
 end SV.Props.C18
